@@ -6,7 +6,7 @@ package ipv4
 //
 //@ func (*Header).Unmarshal
 //@   check safety
-//@   ensures [addr] result == nil ==> len(h.Src) == 16 && len(h.Dst) == 16
+//@   ensures [addr] result == nil ==> len(h.Src) == 16 && len(h.Dst) == 16 && is4(h.Src) && is4(h.Dst)
 //@   ensures [payload] result == nil ==> len(h.Payload) <= len(b) - 20
 //@   ensures [proto] result == nil ==> h.Protocol == int(b[9])
 //@   modifies *h
@@ -14,10 +14,16 @@ package ipv4
 //@ func Parse
 //@   check safety
 //@   ensures result0 != nil
-//@   ensures [addr] result1 == nil ==> len(result0.Src) == 16 && len(result0.Dst) == 16
+//@   ensures [addr] result1 == nil ==> len(result0.Src) == 16 && len(result0.Dst) == 16 && is4(result0.Src) && is4(result0.Dst)
 //@   ensures [payload] result1 == nil ==> len(result0.Payload) <= len(b) - 20
 //@   modifies nothing
 //
 // Package invariant (established by the initialiser; nothing else writes these variables).
 //@ func init
-//@   ensures errHeaderTooShort != nil && errBufferTooShort != nil
+//@   ensures errHeaderTooShort != nil && errBufferTooShort != nil && errMissingAddress != nil
+//
+//@ func (*Header).Marshal
+//@   check safety
+//@   ensures result1 == nil ==> len(result0) == 20 + len(h.Options) && fresh(result0)
+//@   ensures result1 != nil ==> result0 == nil
+//@   modifies nothing
